@@ -79,6 +79,12 @@ def systematic_blocks():
     out.append(case(F, rep(pre_in, [K("MinimumTrials", k=9)]), "C", ["Repeat", "preamble", "inner", "AtMost2"], "blk-rep-pre-in"))
     out.append(case(F, rep(pre_plain, [K("MinimumTrials", k=9), K("AtMostKInARow", k=2, f=1, l=1)]), "C",
                     ["Repeat", "preamble", "outer", "AtMost2"], "blk-rep-pre-out"))
+    for name, k in placements(1, 1)[:4] + [("ExK2a", K("ExactlyK", k=2, f=1, l=1)), ("Pin0a", K("Pin", i=0, f=1, l=1)),
+                                           ("Pin1a", K("Pin", i=1, f=1, l=2)), ("Pin-1a", K("Pin", i=-1, f=1, l=2))]:
+        out.append(case(F, rep(cross([1, 4], [1, 4], [k]), [K("MinimumTrials", k=9)]), "C",
+                        ["Repeat", "preamble", "inner", name], "blk-rep-pre-in-%s" % name))
+        out.append(case(F, rep(cross([1, 4], [1, 4], []), [K("MinimumTrials", k=9), k]), "C",
+                        ["Repeat", "preamble", "outer", name], "blk-rep-pre-out-%s" % name))
     # --- MultiCrossBlock and its Merge equivalent, all modes x alignments
     for mode in ("weight", "repeat"):
         d = [1, 2, 3]
@@ -134,6 +140,12 @@ def systematic_blocks():
     out.append(case(Fn3, nest(cross([1], [1]), cross([2, 3, 5], [2])), "C", ["Nest", "implied-derived", "inner"], "blk-nest-implied-inner"))
     out.append(case(Fn3, nest(cross([1, 3, 4], [1], [K("AtMostKInARow", k=2, f=4, l=1)]), cross([2], [2])), "C",
                     ["Nest", "constrained-derived", "outer"], "blk-nest-derived-outer-atmost"))
+    out.append(case(Fn3, nest(cross([1, 3, 4], [1, 4]), cross([2], [2])), "C", ["Nest", "outer-crossed-derived", "uncrossed-source"],
+                    "blk-nest-outer-x-derived"))
+    out.append(case(Fn3, nest(cross([1], [1]), cross([2, 3, 5], [2, 5])), "C", ["Nest", "inner-crossed-derived", "uncrossed-source"],
+                    "blk-nest-inner-x-derived"))
+    out.append(case(Fn3, nest(cross([1, 3, 4], [4]), cross([2], [2])), "C", ["Nest", "outer-crossed-derived-alone"],
+                    "blk-nest-outer-x-derived-alone"))
     Fn2 = [basic("o", 2), basic("m", 2), basic("i", 2)]
     out.append(case(Fn2, nest(nest(cross([1], [1]), cross([2], [2])), cross([3], [3])), "C", ["Nest", "nested-left"], "blk-nest-left"))
     out.append(case(Fn2, nest(cross([1], [1]), nest(cross([2], [2]), cross([3], [3]))), "C", ["Nest", "nested-right"], "blk-nest-right"))
@@ -271,6 +283,28 @@ def weighted_blocks():
                     ["weights", "Repeat", "weights-uncrossed", "outer", "AtMost1"], "wblk-repeat-uncrossed-out"))
     out.append(case(F, nest(cross([1], [1]), cross([2], [2])), "C", ["weights", "Nest"], "wblk-nest-outer-weighted"))
     out.append(case(F, nest(cross([2], [2]), cross([1], [1])), "C", ["weights", "Nest"], "wblk-nest-inner-weighted"))
+    # weighted crossed level + crossed within-trial factor whose other source is free + Repeat with a trailing partial repetition
+    Fq = [basic("a", 2, [2, 1]), basic("u", 3)]
+    Fq.append(derived(Fq, "au", [1, 2], "within", table=[[[1, 1], [2, 2], [2, 3]], [[1, 2], [1, 3], [2, 1]]]))
+    for m in (4, 6, 7, 9, 10):
+        out.append(case(Fq, rep(cross([1, 2, 3], [1, 3]), [K("MinimumTrials", k=m)]), "C",
+                        ["weights", "Repeat", "crossed-derived", "uncrossed-source", "leftover"], "wblk-repeat-xderived-min%d" % m))
+    Fq2 = [basic("a", 2), basic("u", 3)]
+    Fq2.append(derived(Fq2, "au", [1, 2], "within", table=[[[1, 1], [2, 2], [2, 3]], [[1, 2], [1, 3], [2, 1]]]))
+    for m in (3, 5, 6):
+        out.append(case(Fq2, rep(cross([1, 2, 3], [1, 3]), [K("MinimumTrials", k=m)]), "C",
+                        ["Repeat", "crossed-derived", "uncrossed-source", "leftover"], "wblk-repeat-xderived-plain-min%d" % m))
+        out.append(case(Fq2, cross([1, 2, 3], [1, 3], [K("MinimumTrials", k=m)]), "C",
+                        ["crossed-derived", "uncrossed-source", "MinimumTrials"], "wblk-cross-xderived-plain-min%d" % m))
+    # a weighted DERIVED level alone in the crossing, its sources free (several completions per combination), repeated with a
+    # trailing partial repetition as long as the number of distinct combinations
+    Fl = [basic("color", 2), basic("size", 2)]
+    Fl.append(derived(Fl, "look", [1, 2], "within", table=[[[1, 1]], [[1, 2], [2, 1], [2, 2]]], w=[1, 2]))
+    for m in (3, 4, 5):
+        out.append(case(Fl, rep(cross([1, 2, 3], [3]), [K("MinimumTrials", k=m)]), "C",
+                        ["weights", "weighted-derived-level", "Repeat", "leftover"], "wblk-repeat-look-min%d" % m))
+        out.append(case(Fl, cross([1, 2, 3], [3], [K("MinimumTrials", k=m)]), "C",
+                        ["weights", "weighted-derived-level", "MinimumTrials"], "wblk-cross-look-min%d" % m))
     # a weighted factor that is in NO crossing (desugared into a hidden pair of factors) inside Merge / Nest
     F4 = F + [basic("d", 2)]
     out.append(case(F4, merge([cross([2, 3], [2]), cross([4], [4])], [], "repeat", "equal"), "C",
